@@ -25,7 +25,6 @@ pub fn reim_add_avx2_fma(res: &mut [f64], a: &[f64], b: &[f64]) {
         return;
     }
 
-    #[cfg(debug_assertions)]
     {
         assert_eq!(a.len(), res.len());
         assert_eq!(b.len(), res.len());
@@ -61,7 +60,6 @@ pub fn reim_add_assign_avx2_fma(res: &mut [f64], a: &[f64]) {
         return;
     }
 
-    #[cfg(debug_assertions)]
     {
         assert_eq!(a.len(), res.len());
     }
@@ -94,7 +92,6 @@ pub fn reim_sub_avx2_fma(res: &mut [f64], a: &[f64], b: &[f64]) {
         return;
     }
 
-    #[cfg(debug_assertions)]
     {
         assert_eq!(a.len(), res.len());
         assert_eq!(b.len(), res.len());
@@ -130,7 +127,6 @@ pub fn reim_sub_assign_avx2_fma(res: &mut [f64], a: &[f64]) {
         return;
     }
 
-    #[cfg(debug_assertions)]
     {
         assert_eq!(a.len(), res.len());
     }
@@ -163,7 +159,6 @@ pub fn reim_sub_negate_assign_avx2_fma(res: &mut [f64], a: &[f64]) {
         return;
     }
 
-    #[cfg(debug_assertions)]
     {
         assert_eq!(a.len(), res.len());
     }
@@ -196,7 +191,6 @@ pub fn reim_negate_avx2_fma(res: &mut [f64], a: &[f64]) {
         return;
     }
 
-    #[cfg(debug_assertions)]
     {
         assert_eq!(a.len(), res.len());
     }
@@ -260,7 +254,6 @@ pub fn reim_addmul_avx2_fma(res: &mut [f64], a: &[f64], b: &[f64]) {
         return;
     }
 
-    #[cfg(debug_assertions)]
     {
         assert_eq!(a.len(), res.len());
         assert_eq!(b.len(), res.len());
@@ -318,7 +311,6 @@ pub fn reim_mul_avx2_fma(res: &mut [f64], a: &[f64], b: &[f64]) {
         return;
     }
 
-    #[cfg(debug_assertions)]
     {
         assert_eq!(a.len(), res.len());
         assert_eq!(b.len(), res.len());
@@ -375,7 +367,6 @@ pub fn reim_mul_assign_avx2_fma(res: &mut [f64], a: &[f64]) {
         return;
     }
 
-    #[cfg(debug_assertions)]
     {
         assert_eq!(a.len(), res.len());
     }
